@@ -206,4 +206,28 @@ class C02(Prop):
         return tuple(sorted((k, str(v)) for k, v in a.items()))
 
 
+    def thread_pairs(self, ctx):
+        import datetime
+        import struct
+
+        import aioswitcher.device.tools as t
+
+        from ..monitors.threadops import api_pair, expect
+
+        clock.set_zone("UTC")
+        name = lambda s: s.encode().hex() + "00" * (32 - len(s.encode()))
+        secs = lambda n: struct.pack("<I", n).hex()
+        a = {"type": 1, "id": "a1b2c3", "key": "18", "op": "set_device_name", "args": {"name": "Boiler up"}}
+        b = {"type": 1, "id": "d4e5f6", "key": "27", "op": "set_device_name", "args": {"name": "חדר שינה של ההורים"[:14]}}
+        c = {"type": 1, "id": "0a0b0c", "key": "03", "op": "turn_on_timer", "args": {"minutes": 30}}
+        d = {"type": 1, "id": "0d0e0f", "key": "04", "op": "set_auto_shutdown", "args": {"seconds": 2 * 3600 + 30 * 60}}
+        return [("name field(A) || name field(B)", lambda: t.string_to_hexadecimale_device_name("Boiler up"), lambda: t.string_to_hexadecimale_device_name("x" * 31),
+                 expect(name("Boiler up")), expect(name("x" * 31))),
+                ("timer field(30) || timer field(90)", lambda: t.minutes_to_hexadecimal_seconds(30), lambda: t.minutes_to_hexadecimal_seconds(90), expect(secs(1800)), expect(secs(5400))),
+                ("auto-shutdown field || auto-shutdown field", lambda: t.timedelta_to_hexadecimal_seconds(datetime.timedelta(hours=2, minutes=30)),
+                 lambda: t.timedelta_to_hexadecimal_seconds(datetime.timedelta(hours=23, minutes=59)), expect(secs(9000)), expect(secs(86340))),
+                api_pair("set_device_name(A) (one thread) || set_device_name(B) (another thread)", a, b),
+                api_pair("timer || auto shutdown", c, d)]
+
+
 PROP = C02()
